@@ -60,7 +60,7 @@ template<class T> T angle_of_half(Ang a) { return T(2.0L * std::atan2((long doub
 struct Ax { int x, y, z, e, an, ad; };                    // axis = (x, y, z) * 2^e, its length is an/ad
 static const Ax AXES[] = { {1, 0, 0, 0, 1, 1}, {0, 1, 0, 0, 1, 1}, {0, 0, 1, 0, 1, 1}, {-1, 0, 0, 0, 1, 1}, {0, 0, -2, 0, 2, 1}, {0, 3, 0, -1, 3, 2},
                            {1, 2, 2, 0, 3, 1}, {2, 4, 4, 0, 6, 1}, {2, 3, 6, 0, 7, 1}, {4, 4, 7, 0, 9, 1}, {-2, 1, 2, 0, 3, 1}, {6, -2, 3, 0, 7, 1},
-                           {0, 3, 4, 0, 5, 1}, {1, 2, 2, -1, 3, 2}, {1, 4, 8, 0, 9, 1}, {2, 10, 11, 0, 15, 1}, {-3, 0, 4, 3, 40, 1}, {12, -15, 16, 0, 25, 1},
+                           {0, 3, 4, 0, 5, 1}, {1, 2, 2, -1, 3, 2}, {8, -4, 1, 0, 9, 1}, {3, 6, -2, 0, 7, 1}, {-3, 0, 4, 3, 40, 1}, {-4, 8, 1, 0, 9, 1},
                            {-8, -9, -12, -4, 17, 16} };
 static const int NAX = int(sizeof(AXES) / sizeof(AXES[0]));
 template<class T, glm::qualifier Q> glm::vec<3, T, Q> axis_vec(Ax const& a) {
@@ -77,7 +77,8 @@ template<class T, glm::qualifier Q> glm::vec<3, T, Q> unit_axis_vec(Ax const& a)
 
 // unit quaternions with rational components (w, x, y, z) / d
 static const int QTS[][5] = { {1, 0, 0, 0, 1}, {1, 1, 1, 1, 2}, {1, 2, 2, 4, 5}, {2, -4, 5, 6, 9}, {0, 3, 0, 4, 5}, {-1, 1, -1, 1, 2}, {4, 2, -2, 1, 5},
-                              {0, 0, 1, 0, 1}, {2, 3, 6, 0, 7}, {-6, 2, 4, 5, 9}, {1, 4, 8, 0, 9}, {10, 2, 11, 0, 15} };
+                              {0, 0, 1, 0, 1}, {2, 3, 6, 0, 7}, {-6, 2, 4, 5, 9}, {1, 4, 8, 0, 9}, {10, 2, 11, 0, 15},
+                              {0, 1, 0, 0, 1}, {1, 8, 4, 0, 9}, {0, 0, 0, 1, 1} };      // trace <= 0 with the x / z diagonal entry largest
 static const int NQT = int(sizeof(QTS) / sizeof(QTS[0]));
 
 // ------------------------------------------------------------------ numeric inputs (integer RNG only)
@@ -362,19 +363,21 @@ template<class T, glm::qualifier Q> void family(Rng& g, int scale_down) {
     const int sd = scale_down;                              // 1 = full corpus; larger = every sd-th case
     const int* turns = g_thorough ? TURNS_T : TURNS_Q;
     const int nturns = g_thorough ? 9 : 5;
-    auto B4 = bases4<T, Q>(g, g_thorough ? 30 : 6);
-    auto B3 = bases3<T, Q>(g, g_thorough ? 18 : 5);
-    auto VS = vecs3<T, Q>(g, g_thorough ? 40 : 7);
+    auto B4 = bases4<T, Q>(g, g_thorough ? 48 : 6);
+    auto B3 = bases3<T, Q>(g, g_thorough ? 36 : 5);
+    auto VS = vecs3<T, Q>(g, g_thorough ? 60 : 7);
+    const int reps = g_thorough ? 4 : 1;                    // the thorough tier walks the rotation grids with 4 different base matrices / turn counts
     int n = 0;
+    const int thin = g_thorough ? 1 : 2;                    // the quick tier takes every second case of the large rotation grids
     ev_identity<T, Q>();
     // translate / scale / gtx single-argument forms
     for (size_t i = 0; i < B4.size(); ++i) for (size_t j = 0; j < VS.size(); ++j) if ((n++ % sd) == 0) { ev_translate<T, Q>(B4[i], VS[j]); ev_scale<T, Q>(B4[i], VS[j]); }
     for (size_t j = 0; j < VS.size(); ++j) if ((n++ % sd) == 0) ev_gtx1<T, Q>(VS[j]);
     // rotate: every (cos, sin) pair x every axis on a rotating base matrix; several turns
-    for (int a = 0; a < NPY; ++a) for (int x = 0; x < NAX; ++x) {
-        if ((n++ % sd) != 0) continue;
-        Ang an = { PY[a][0], PY[a][1], PY[a][2], (x % 4 == 3) ? turns[(a + x) % nturns] : 0 };
-        ev_rotate<T, Q>(B4[size_t(a + x) % B4.size()], an, AXES[x]);
+    for (int rep = 0; rep < reps; ++rep) for (int a = 0; a < NPY; ++a) for (int x = 0; x < NAX; ++x) {
+        if ((n++ % (sd * thin)) != 0) continue;
+        Ang an = { PY[a][0], PY[a][1], PY[a][2], ((x + rep) % 4 == 3) ? turns[(a + x + rep) % nturns] : 0 };
+        ev_rotate<T, Q>(B4[size_t(a + x + rep * 11) % B4.size()], an, AXES[x]);
         if ((a + x) % 3 == 0) ev_rotate1<T, Q>(an, AXES[x]);
     }
     for (int a = 0; a < NPY; ++a) for (int k = 1; k < nturns; ++k) {
@@ -401,7 +404,7 @@ template<class T, glm::qualifier Q> void family(Rng& g, int scale_down) {
         }
     }
     // transform2 and the 2D helpers
-    for (size_t i = 0; i < B3.size(); ++i) for (int j = 0; j < 4; ++j) {
+    for (size_t i = 0; i < B3.size(); ++i) for (int j = 0; j < (g_thorough ? 8 : 4); ++j) {
         if ((n++ % sd) != 0) continue;
         T s = j == 0 ? T(2) : j == 1 ? T(-3) : rnd_small<T>(g, 1); T t = j == 0 ? T(5) : j == 1 ? T(0.5) : rnd_small<T>(g, 1);
         ev_transform2<T, Q>(B3[i], B4[(i + size_t(j)) % B4.size()], s, t, AXES[(i * 4 + size_t(j)) % NAX]);
@@ -410,10 +413,10 @@ template<class T, glm::qualifier Q> void family(Rng& g, int scale_down) {
         ev_2d<T, Q>(B3[i], V2(v.x, v.y), an, s);
     }
     // rotate_vector, rotate_normalized_axis
-    for (int a = 0; a < NPY; ++a) for (int x = 0; x < NAX; x += 2) {
-        if ((n++ % sd) != 0) continue;
-        Ang an = { PY[a][0], PY[a][1], PY[a][2], (a + x) % 5 == 0 ? turns[(a + x) % nturns] : 0 };
-        V3 v = VS[size_t(a * 3 + x) % VS.size()];
+    for (int rep = 0; rep < reps; ++rep) for (int a = 0; a < NPY; ++a) for (int x = rep % 2; x < NAX; x += 2) {
+        if ((n++ % (sd * thin)) != 0) continue;
+        Ang an = { PY[a][0], PY[a][1], PY[a][2], (a + x + rep) % 5 == 0 ? turns[(a + x + rep) % nturns] : 0 };
+        V3 v = VS[size_t(a * 3 + x + rep * 13) % VS.size()];
         ev_rotvec<T, Q>(V4(v.x, v.y, v.z, T(1 + (a % 3))), an, AXES[(x + a) % NAX]);
         ev_rna<T, Q>(B4[size_t(a + x) % B4.size()], an, AXES[(x + a) % NAX], QTS[(a + x) % NQT]);
     }
@@ -464,7 +467,7 @@ template<class T> void decompose_family(Rng& g) {
     const int TR[][4] = { {0, 0, 0, 1}, {1, 2, 3, 1}, {-5, 7, 1, 2}, {10, -20, 30, 1} };
     const int PR[][5] = { {1, -2, 1, 8, 8}, {1, 1, 1, 16, 16}, {-1, 0, 2, 4, 4}, {0, 0, 1, 32, 32} };       // (x, y, z, w)/pd with w = pd
     int n = 0;
-    int stride = g_thorough ? 3 : 29;
+    int stride = g_thorough ? 2 : 29;
     for (int q = 0; q < NQT; ++q) for (int sg = 0; sg < 8; ++sg) for (int sc = 0; sc < 6; ++sc) for (int sk = 0; sk < 6; ++sk) for (int md = 0; md < 2; ++md) {
         if ((n++ % stride) != 0) continue;
         Pieces c;
@@ -517,6 +520,12 @@ template<class T> void interpolation_family(Rng& g) {
         if ((n++ % stride) != 0) continue;
         Ang an = { PY[a][0], PY[a][1], PY[a][2], 0 };
         ev_axisAngle<T, glm::defaultp>(an, AXES[x], TRS[(a + x) % 4]);
+    }
+    // every branch of axisAngle: the identity and the half turn about every axis (largest diagonal entry x / y / z, ties)
+    for (int x = 0; x < NAX; ++x) {
+        Ang ident = { 1, 0, 1, 0 }, halfturn = { -1, 0, 1, 0 };
+        ev_axisAngle<T, glm::defaultp>(ident, AXES[x], TRS[x % 4]);
+        ev_axisAngle<T, glm::defaultp>(halfturn, AXES[x], TRS[(x + 1) % 4]);
     }
     // half-angle pairs with a well-conditioned full angle, plus the identity (1, 0) and the half turn (0, 1)
     const int HALF[][3] = { {1, 0, 1}, {0, 1, 1}, {4, 3, 5}, {3, 4, 5}, {12, 5, 13}, {12, -5, 13}, {4, -3, 5}, {15, 8, 17}, {24, 7, 25} };
